@@ -227,6 +227,8 @@ class InlineCharacterReferenceHelper:
             original_reference, new_string = f"{new_string};", (
                 InlineCharacterReferenceHelper.__invalid_reference_character_substitute
                 if translated_reference == 0
+                or translated_reference > 0x10FFFF
+                or 0xD800 <= translated_reference <= 0xDFFF
                 else chr(translated_reference)
             )
         return new_string, new_index, original_reference
